@@ -39,7 +39,10 @@ def congruence_lemmas(pc, terms, timeout_ms, depth=0, cache=None):
             k1, n1, b1 = R.instantiate(a1, x); k2, n2, b2 = R.instantiate(a2, x)
             ok = False
             if b1.sort() == b2.sort():
-                inner = congruence_lemmas(pc + [x >= 0, x < n1], [b1, b2, n1, n2], timeout_ms, depth + 1, cache)
+                inapps = {}
+                for t_ in (b1, b2, n1, n2): R.collect(t_, inapps)
+                infacts = R.qf_facts(list(inapps.values())) if inapps else []
+                inner = infacts + congruence_lemmas(pc + [x >= 0, x < n1] + infacts, [b1, b2, n1, n2] + infacts, timeout_ms, depth + 1, cache)
                 r1, _ = _check(pc + inner, n1 == n2, timeout_ms)
                 if r1 == z3.unsat:
                     r2, _ = _check(pc + inner + [x >= 0, x < n1], b1 == b2, timeout_ms)
